@@ -287,6 +287,16 @@ fn documents(c: &mut Ctx) {
             let o = if r.chance(1, 2) { Object::Stream(lopdf::Stream::new(Dictionary::new(), fake)) } else { Object::String(fake, lopdf::StringFormat::Literal) };
             doc.objects.insert(id, o); c.count("doc.embedded_fake_trailer");
         }
+        // every 10th document holds an object nested up to the deepest level the parser accepts (MAX_NESTING = 128 containers):
+        // what the writer writes the reader must read back, at 64, 65, 127 and 128 levels as well as at 5. Optimised builds only:
+        // unoptimised frames overflow a rayon worker's stack near the limit (known finding F-C04-k).
+        if i % 10 == 3 && !cfg!(debug_assertions) {
+            let d = *r.pick(&[60usize, 64, 65, 100, 127, 128]);
+            let mut o = Object::Integer(r.range(-9, 9));
+            for _ in 0..d { o = if r.chance(1, 2) { Object::Array(vec![o]) } else { let mut dd = Dictionary::new(); dd.set("K", o); Object::Dictionary(dd) }; }
+            let id = (doc.max_id + 1, 0); doc.max_id += 1;
+            doc.objects.insert(id, o); c.count(&format!("doc.deep_nesting_{}", d));
+        }
         if doc.objects.len() >= 2 { c.nontrivial(&format!("{}{}", i, doc.objects.len())); }
         c.count(if stream { "doc.xref_stream" } else { "doc.xref_table" });
         let kind = if stream { "stream" } else { "table" };
